@@ -63,6 +63,14 @@ impl Trio {
     }
 }
 
+pub fn dispatch(cmd: &str, a: &Args) -> Option<Result<()>> {
+    match cmd {
+        "replay-kmer" => Some(replay(a)),
+        "trace-kmer" => Some(trace(a)),
+        _ => None,
+    }
+}
+
 /// REPLAY: every behaviour printed by MC_Kmer is executed on the real objects; after each
 /// step the projected real state must equal the model's post-state.
 pub fn replay(a: &Args) -> Result<()> {
